@@ -54,4 +54,20 @@ PROPS = {
         "tags": {}, 
         "assumptions": ["index columns are atoms, optionals or map keys", "batches touch each row at most once (as ModelUpdates guarantees)"],
     },
+    "C08": {
+        "level_text": ("Theorems (Props/C08.v, axiom-free): a faithful model of RowCache.RowsByCondition - indexable conditions, incrementally built power set, "
+                       "evaluation of a condition subset through the first index named after it, intersections, early exits, then explicit evaluation with the "
+                       "_uuid shortcut - returns exactly the rows satisfying every condition in every cache state meeting the C05 index invariant, hence "
+                       "independently of the index configuration; the condition functions are shown to be RFC 7047's (==, !=, <, <=, >, >=, includes, excludes on "
+                       "atoms, optionals, sets, maps). Tied to the code by evaluating the same contents and condition lists under 4 of 7 index configurations. "
+                       "The conditional API (WhereAll/WhereAny/Where(model), generated operations) is not yet modelled: that clause of C08 is not covered."),
+        "level_note": ("Trusted: Coq kernel + vm_compute, std++; Go harness incl. its own RFC evaluator used as direct oracle; model hand-written. Conditions are "
+                       "well typed (the property's quantifier); error masking for ill-typed conditions is outside the model."),
+        "rule": ("tables of 0..8 rows over 12 columns of all kinds (values from pools of 4 so that conditions hit), 2..6 (thorough ..10) condition lists of 0..4 "
+                 "conditions (all 8 functions, _uuid conditions, repeated columns, sub-collections of stored values, same set in different order, two conditions on "
+                 "different keys of one map), each evaluated under 'no index' and 3 other configurations (schema single/multi, client, overlapping, map-key, two "
+                 "keys of one map). Non-trivial: >= 2 conditions, >= 3 rows, result neither empty nor everything."),
+        "tags": {1: "RowsByCondition vs model with pre-filter", 2: "RowsByCondition vs declarative filter", 3: "error for well-typed conditions", 5: "generator produced an ill-typed condition"},
+        "assumptions": ["conditions are well typed for their column", "the cache state satisfies the C05 invariant (schema-indexed values unique)"],
+    },
 }
